@@ -30,6 +30,7 @@ FEATURES = {
     "retry-token-63": {"retry": True, "token_len": 63},
     "retry-token-64": {"retry": True, "token_len": 64},          # the token length needs a two-byte var-int
     "zero-rtt": {"zero_rtt": True},
+    "zero-rtt-two-packets": {"zero_rtt": 2},
     "offered-other-first": {"offered_other_first": True},
     "keylog-reversed": {"keylog_order": "reversed"},
     "client-id-prefix-of-server-id": {"cid_alias": "client-prefix-of-server"},
